@@ -122,11 +122,18 @@ pub fn check_reliable_not_skipped(subs: &[Sub], m: &Matched) -> Result<(), Viola
             reliable[sub.ch as usize].push(sub.idx);
         }
     }
+    // (per channel: position in `reliable[ch]` of the first Reliable submission after the last delivered one; deliveries
+    // on a channel come in submission order - C01 -, so the cursor only moves forward)
+    let mut cursor: [usize; 64] = [0; 64];
     for (k, &idx) in m.deliv_to_sub.iter().enumerate() {
         let sub = &subs[idx as usize];
         let ch = sub.ch as usize;
         // any reliable submission strictly between last[ch] and idx was skipped
-        for &r in reliable[ch].iter() {
+        let list = &reliable[ch];
+        while cursor[ch] < list.len() && (list[cursor[ch]] as i64) <= last[ch] {
+            cursor[ch] += 1;
+        }
+        if let Some(&r) = list.get(cursor[ch]) {
             if (r as i64) > last[ch] && r < idx {
                 return Err(Violation::new(
                     "oracle:c02:reliable_skipped",
